@@ -377,18 +377,6 @@ fn parse_field(base_data_size: usize, field: &Field) -> Result<FieldDefinition> 
             }
         }
 
-        let highest_bit_index_in_ranges = ranges.iter().map(|range| range.end).max().unwrap_or(0);
-        let number_of_bits_indexed =
-            (indexed_count - 1) * indexed_stride.unwrap() + highest_bit_index_in_ranges;
-        if number_of_bits_indexed > base_data_size {
-            return Err(Error::new_spanned(
-                field.attrs.first(),
-                format!(
-                    "bitfield!: Array-field {} requires {number_of_bits_indexed} bits for the array, but only has ({})", field_name, base_data_size
-                )
-            ));
-        }
-
         if indexed_count < 2 {
             return Err(Error::new_spanned(
                 &field.ty,
@@ -397,6 +385,24 @@ fn parse_field(base_data_size: usize, field: &Field) -> Result<FieldDefinition> 
                     field_name
                 ),
             ));
+        }
+
+        let highest_bit_index_in_ranges = ranges.iter().map(|range| range.end).max().unwrap_or(0);
+        // Checked arithmetic: a huge stride must be rejected here, not wrap around (or panic, depending on how this
+        // crate was built) and slip through the comparison below
+        let number_of_bits_indexed = (indexed_count - 1)
+            .checked_mul(indexed_stride.unwrap())
+            .and_then(|bits| bits.checked_add(highest_bit_index_in_ranges));
+        match number_of_bits_indexed {
+            Some(number_of_bits_indexed) if number_of_bits_indexed <= base_data_size => {}
+            _ => {
+                return Err(Error::new_spanned(
+                    field.attrs.first(),
+                    format!(
+                        "bitfield!: Array-field {} with {} elements and stride {} does not fit into the {} bits of the bitfield", field_name, indexed_count, indexed_stride.unwrap(), base_data_size
+                    )
+                ));
+            }
         }
     } else {
         // Verify bounds for non-array fields
